@@ -22,9 +22,10 @@ def Img.joinImages : Img → PyRes Img
 
 /-! ### `get_image_by_absolute_address`
 
-Current code: the children are tried first, in list order, each with `address - self.offset`; an `SPSDKValueError`
-of a child means "try the next one"; then `if address < self.offset or address > self.offset + len(self): raise`,
-else `self`.
+The children are tried first, in list order, each with `address - self.offset`; an `SPSDKValueError` of a child
+means "try the next one"; then `if address < self.offset or address >= self.offset + len(self): raise`, else `self`
+(`>=` since commit e6ec992; before that `>`, which accepted the end address - kept below as `getByAddrLax`, the
+pre-fix search, to state exactly what the repair changed).
 
 Offsets and addresses are naturals here.  Python would call the children with a negative number when
 `address < self.offset`; every image then refuses: a child's own test `address' < child.offset` is true because
@@ -34,6 +35,26 @@ accepts, and finally the image's own test `address < self.offset` raises.  Hence
 
 The result is the path (child indices from the root), the offset of the found image inside the root's buffer
 (sum of the child offsets along the path, root's own offset NOT included) and the found image. -/
+
+/-! the search as it was before e6ec992 (end address accepted) -/
+mutual
+def Img.getByAddrLax : Img → Nat → PyRes (List Nat × Nat × Img)
+  | .mk s o a b p ch, addr =>
+    if addr < o then .error .spsdk
+    else match getByAddrLaxChildren ch (addr - o) 0 with
+      | some r => .ok r
+      | none =>
+        if addr > o + (Img.mk s o a b p ch).len then .error .spsdk
+        else .ok ([], 0, .mk s o a b p ch)
+def getByAddrLaxChildren : List Img → Nat → Nat → Option (List Nat × Nat × Img)
+  | [], _, _ => none
+  | c :: cs, addr, idx =>
+    match c.getByAddrLax addr with
+    | .ok (path, off, d) => some (idx :: path, c.offset + off, d)
+    | .error _ => getByAddrLaxChildren cs addr (idx + 1)
+end
+
+/-! the search as it is now (end address excluded): "the image that contains the address" -/
 mutual
 def Img.getByAddr : Img → Nat → PyRes (List Nat × Nat × Img)
   | .mk s o a b p ch, addr =>
@@ -41,7 +62,7 @@ def Img.getByAddr : Img → Nat → PyRes (List Nat × Nat × Img)
     else match getByAddrChildren ch (addr - o) 0 with
       | some r => .ok r
       | none =>
-        if addr > o + (Img.mk s o a b p ch).len then .error .spsdk
+        if addr ≥ o + (Img.mk s o a b p ch).len then .error .spsdk
         else .ok ([], 0, .mk s o a b p ch)
 def getByAddrChildren : List Img → Nat → Nat → Option (List Nat × Nat × Img)
   | [], _, _ => none
@@ -49,24 +70,6 @@ def getByAddrChildren : List Img → Nat → Nat → Option (List Nat × Nat × 
     match c.getByAddr addr with
     | .ok (path, off, d) => some (idx :: path, c.offset + off, d)
     | .error _ => getByAddrChildren cs addr (idx + 1)
-end
-
-/-! the same search with the end address excluded (`>=`): what "the image that contains the address" asks for -/
-mutual
-def Img.getByAddrStrict : Img → Nat → PyRes (List Nat × Nat × Img)
-  | .mk s o a b p ch, addr =>
-    if addr < o then .error .spsdk
-    else match getByAddrStrictChildren ch (addr - o) 0 with
-      | some r => .ok r
-      | none =>
-        if addr ≥ o + (Img.mk s o a b p ch).len then .error .spsdk
-        else .ok ([], 0, .mk s o a b p ch)
-def getByAddrStrictChildren : List Img → Nat → Nat → Option (List Nat × Nat × Img)
-  | [], _, _ => none
-  | c :: cs, addr, idx =>
-    match c.getByAddrStrict addr with
-    | .ok (path, off, d) => some (idx :: path, c.offset + off, d)
-    | .error _ => getByAddrStrictChildren cs addr (idx + 1)
 end
 
 /-- follow a path of child indices -/
